@@ -644,17 +644,30 @@ theorem step_reg_inv (s : State) (fs : List Fault) (req : Req) (h : RegInv s) (h
     simp only [step, restart]
     exact ⟨h.unique, h.distinct, registryOf_spec _ h.unique h.distinct⟩
 
-/-- **Restart transparency**: in a state where the registry is in step with the store, re-creating the
-    server over the same store yields *the same state* — so every continuation of the history, with
-    every fault pattern, gets exactly the same replies. -/
-theorem C19_restart (s : State) (h : RegInv s) : restart s = s := by
+/-- **Restart transparency** (`_partial`: under `RegInv`, i.e. for histories that never give two service
+    names one entity ID — the full statement "for every reachable state" is false, see
+    `C19_restart_duplicate_counterexample` below): in a state where the registry is in step with the
+    store, re-creating the server over the same store yields *the same state* — so every continuation of
+    the history, with every fault pattern, gets exactly the same replies. -/
+theorem C19_restart_partial (s : State) (h : RegInv s) : restart s = s := by
   have := regSpec_unique (fun e => (registryOf s.store.services).get e) s.registry s.store.services
     (registryOf_spec _ h.unique h.distinct) h.spec
   unfold restart
   rw [this]
 
+/-- **The excluded point, run** (the hypothesis `StepOK` was forced by the proof; this is what happens
+    without it, and the real server does the same: known finding `c19-duplicate-entity-restart`).
+    `PUT /services/a` and `PUT /services/b` with the same entity ID, then `DELETE /services/a`: service
+    `b` is still stored with that entity ID, the running server no longer serves it, and a server
+    re-created over the same store serves it again — the restart is observable. -/
+theorem C19_restart_duplicate_counterexample :
+    let md : Md := ⟨"https://sp.example.com/md", true, "m"⟩
+    let s := (run init [(.putService "a" (some md), []), (.putService "b" (some md), []), (.deleteService "a", [])]).1
+    s.store.services.get "b" = some md ∧ s.registry md.entityID = none ∧ (restart s).registry md.entityID = some md := by
+  decide
+
 theorem C19_restart_continues (s : State) (h : RegInv s) (hist : List (Req × List Fault)) :
-    run (restart s) hist = run s hist := by rw [C19_restart s h]
+    run (restart s) hist = run s hist := by rw [C19_restart_partial s h]
 
 /-- well-behaved histories: no duplicate entity IDs are introduced, and the store does not lie about
     absence -/
